@@ -217,6 +217,15 @@ def step (st : St) (toks : List Val) (impl : String) : St × Out :=
        { model := renderSorted r.2, spec := some (renderSorted a.spec),
          tags := [s!"string.{layoutClass a.set}"] ++ evTags a.set r.1 })
     | none => (st, { model := "bad-op" })
+  | [.w "stringx", .i h] =>
+    -- String() of the same set with string-typed members that look like list syntax (harness: `memberNames`): every member is
+    -- enumerated exactly once, verbatim; the harness parses the rendering back to the members' indices
+    match st.get h.toNat with
+    | some a =>
+      let r := string a.set
+      (st.put h.toNat { a with set := r.1 },
+       { model := renderSorted r.2, spec := some (renderSorted a.spec), tags := ["stringx"] })
+    | none => (st, { model := "bad-op" })
   | [.w "clone", .i h, .i r] =>
     match st.get h.toNat with
     | some a =>
